@@ -69,6 +69,59 @@ def _enclosing_function(prog: Program, mod, node) -> FuncInfo | None:
     return best
 
 
+def _gen_expr_ok(prog: Program, fi, txt: str, ctx_base) -> bool:
+    if txt in ("context.rng", "self._rng", "self.context.rng"):
+        return True
+    return txt == "self.rng" and bool(fi.cls and prog.is_subclass(fi.cls, ctx_base))
+
+
+def _param_provenance(prog: Program, helper, pname: str, ctx_base, depth: int):
+    from ..normalize import resolve_callee
+
+    if depth > 3:
+        return False, "helper chain too deep"
+    if helper.kind == "method" and helper.name.startswith("__"):
+        return False, "special method"
+    params = [a.arg for a in helper.node.args.posonlyargs + helper.node.args.args]
+    sites = 0
+    for fi in prog.iter_functions():
+        inl = None
+        for call in calls_in(fi.node):
+            f = call.func
+            nm = f.attr if isinstance(f, ast.Attribute) else (f.id if isinstance(f, ast.Name) else None)
+            if nm != helper.name:
+                continue
+            r = resolve_callee(prog, fi, call, fi.cls)
+            if r is None or r[0] is not helper:
+                if isinstance(f, ast.Attribute) and helper.cls is not None:
+                    return False, f"call `{norm(call)[:50]}` in {fi.qualname} not resolved"
+                continue
+            sites += 1
+            has_recv = r[1] is not None or helper.kind == "class"
+            plist = params[1:] if (helper.kind in ("method", "class") and params and params[0] in ("self", "cls")) else params
+            arg = None
+            if pname in plist and plist.index(pname) < len(call.args):
+                arg = call.args[plist.index(pname)]
+            for kw in call.keywords:
+                if kw.arg == pname:
+                    arg = kw.value
+            if arg is None or isinstance(arg, ast.Starred):
+                return False, f"{fi.qualname} does not pass `{pname}`"
+            inl = inl or Inliner(fi.node)
+            atxt = norm(inl.inline(arg))
+            if _gen_expr_ok(prog, fi, atxt, ctx_base):
+                continue
+            if atxt in param_names(fi.node) and atxt not in ("self", "cls"):
+                ok, why = _param_provenance(prog, fi, atxt, ctx_base, depth + 1)
+                if ok:
+                    continue
+                return False, why
+            return False, f"{fi.qualname} passes `{atxt}`"
+    if sites == 0:
+        return False, "no call site hands it a generator"
+    return True, ""
+
+
 def run(prog: Program, L: Ledger) -> None:
     L.explanation = (
         "C06 decided statically: (G1) every name in src/quansino is resolved through the import tables and none "
@@ -343,9 +396,13 @@ def run(prog: Program, L: Ledger) -> None:
                 continue
             n_sites += 1
             where = f"{fi.module.relpath}:{call.lineno}"
-            ok = r_inl in ("context.rng", "self._rng", "self.context.rng", "self.rng")
-            if r_inl == "self.rng" and not (fi.cls and prog.is_subclass(fi.cls, ctx_base)):
-                ok = False
+            ok = _gen_expr_ok(prog, fi, r_inl, ctx_base)
+            if not ok and r_inl in param_names(fi.node) and r_inl not in ("self", "cls"):
+                # the generator arrives as a parameter of an internal helper: every call site of the helper
+                # must hand it the simulation generator (followed through at most three helper levels)
+                ok, why = _param_provenance(prog, fi, r_inl, ctx_base, 0)
+                if not ok:
+                    r_inl = f"{r_inl} (parameter; {why})"
             L.check(ok, "G2", f"{fi.qualname}:{rtxt}.{meth}", where,
                     f"stochastic call `{norm(call)}` on receiver `{r_inl}` whose provenance is not Driver._rng",
                     "draws bypass the seeded generator", norm(call))
